@@ -707,4 +707,58 @@ def serve (env : Env) (r : Req) (s : State) : State × Resp :=
       | .redirect => (s, .redirect)
       | _ => (s, .fail .notFound)     -- an index entry outside /config/: not in this model's domain
 
+/-! ### cmd/commandfuncs.go: `caddy reload` -/
+
+/-- the `--adapter` flag of `caddy reload` for a config file named `*.json` -/
+inductive CliAdapter where
+  | none        -- no flag
+  | registered  -- the name of the registered adapter
+  | unknown     -- any other name: "unrecognized config adapter"
+deriving DecidableEq, Repr
+
+/-- `cmd.LoadConfig(file, adapter)`: what is sent, or `none` = the command fails before it sends
+    anything (unknown adapter; the adapter fails; no adapter and a non-empty file that is not
+    JSON). An empty file without adapter is sent as it is. -/
+def cliLoadConfig (env : Env) (file : Body) (a : CliAdapter) : Option Body :=
+  match a with
+  | .unknown => none
+  | .registered => (env.adapt file).map .val
+  | .none =>
+    match file with
+    | .bad => none
+    | b => some b
+
+inductive CliRes where
+  | ok                    -- exit code 0
+  | failedBeforeSend      -- exit code 1, nothing was sent
+  | refused (f : Fail)    -- exit code 1, "caddy responded with error: HTTP …"
+deriving DecidableEq, Repr
+
+/-- `DetermineAdminAPIAddress` without --address unmarshals the (adapted) config into
+    `struct{ Admin AdminConfig }` to look for admin.listen: that fails for a document that is
+    neither an object nor null (an empty file is not looked at) -/
+def cliAddressFound (addressGiven : Bool) (body : Body) : Bool :=
+  addressGiven ||
+  match body with
+  | .val (.obj _) => true
+  | .val .null => true
+  | .val _ => false
+  | _ => true
+
+/-- `cmdReload`: load (and adapt) the file, find the instance (`DetermineAdminAPIAddress`:
+    --address, else the file's admin.listen, else `DefaultAdminListen` — an address, not part of
+    this model), and `AdminAPIRequest(POST, "/load")` with `Content-Type: application/json`
+    and, with --force, `Cache-Control: must-revalidate` -/
+def cliReload (env : Env) (file : Body) (a : CliAdapter) (force addressGiven : Bool) (s : State) : State × CliRes :=
+  match cliLoadConfig env file a with
+  | none => (s, .failedBeforeSend)
+  | some body =>
+    if !cliAddressFound addressGiven body then (s, .failedBeforeSend) else
+    (fun (x : State × Resp) =>
+      (x.1, match x.2 with
+        | .okWrite => CliRes.ok
+        | .fail f => .refused f
+        | _ => .refused .notFound))
+      (serve env ⟨.post, loadPath, body, [], force, .json⟩ s)
+
 end CaddyModel.C12
